@@ -655,4 +655,259 @@ theorem pLoop_sums (n : Nat) (A a : List Nat) (m : Nat) (nb : List Nat) (v : Nat
           simp only [c, c', if_false, List.nil_append]
           rw [hadd R w]; simp only [hnot, if_false, List.nil_append]
 
+/-! ## one `removeFactor` of MOVE at table level = one semantic elimination step -/
+
+/-- the factors the joint action `a` selects, as lists of value vectors: nodes first, then the final factors -/
+def Mean (A a : List Nat) (p : List (GNode MFactor) × List MFactor) : List (List Vec) :=
+  (SelG A a p.1).map den ++ p.2.map den
+
+/-- fully specified: every joint value of a node's agents has a rule -/
+def FullG (A : List Nat) (G : List (GNode MFactor)) : Prop :=
+  ∀ nd ∈ G, ∀ a, Valid A a → (gLookup (toIndexPartial nd.keys A a) nd.rules).isSome = true
+
+def GKeysG (n : Nat) (G : List (GNode MFactor)) : Prop := ∀ nd ∈ G, ∀ u ∈ nd.keys, u < n
+
+theorem SelG_congr (A l1 l2 : List Nat) : ∀ (G : List (GNode MFactor)),
+    (∀ nd ∈ G, ∀ u ∈ nd.keys, l1.getD u 0 = l2.getD u 0) → SelG A l1 G = SelG A l2 G
+  | [], _ => rfl
+  | nd :: G, h => by
+    simp only [SelG, List.filterMap_cons, toIndexPartial]
+    rw [sel_congr nd.keys l1 l2 (h nd (List.mem_cons_self ..))]
+    have := SelG_congr A l1 l2 G (fun nd' h' => h nd' (List.mem_cons_of_mem _ h'))
+    simp only [SelG, toIndexPartial] at this
+    rw [this]
+
+theorem SelG_length_full (A a : List Nat) (ha : Valid A a) : ∀ (G : List (GNode MFactor)), FullG A G →
+    (SelG A a G).length = G.length
+  | [], _ => rfl
+  | nd :: G, h => by
+    have h1 := h nd (List.mem_cons_self ..) a ha
+    have ih := SelG_length_full A a ha G (fun nd' h' => h nd' (List.mem_cons_of_mem _ h'))
+    simp only [SelG, List.filterMap_cons] at ih ⊢
+    cases hl : gLookup (toIndexPartial nd.keys A a) nd.rules with
+    | none => rw [hl] at h1; simp at h1
+    | some f => simp [ih]
+
+theorem sums_SelG_split (A a : List Nat) (p : GNode MFactor → Bool) : ∀ (G : List (GNode MFactor)) (R : List (List Vec)) (w : Vec),
+    w ∈ sums ((SelG A a G).map den ++ R)
+      ↔ w ∈ sums ((SelG A a (G.filter p)).map den ++ ((SelG A a (G.filter (fun nd => !p nd))).map den ++ R))
+  | [], _, _ => by simp [SelG]
+  | nd :: G, R, w => by
+    have ih := sums_SelG_split A a p G R
+    by_cases hp : p nd = true
+    · simp only [SelG, List.filter, hp, Bool.not_true, List.filterMap_cons] at ih ⊢
+      cases gLookup (toIndexPartial nd.keys A a) nd.rules with
+      | none => exact ih w
+      | some f =>
+        simp only [List.map_cons, List.cons_append]
+        exact mem_sums_congr_right w [den f] _ _ ih
+    · have hp' : p nd = false := by simpa using hp
+      simp only [SelG, List.filter, hp', Bool.not_false, List.filterMap_cons] at ih ⊢
+      cases gLookup (toIndexPartial nd.keys A a) nd.rules with
+      | none => exact ih w
+      | some f =>
+        simp only [List.map_cons, List.cons_append]
+        have e1 := mem_sums_congr_right w [den f] _ _ ih
+        simp only [List.singleton_append] at e1
+        rw [e1]
+        have e2 := mem_sums_swap w [den f]
+          (List.map den (List.filterMap (fun nd => gLookup (toIndexPartial nd.keys A a) nd.rules) (List.filter p G)))
+          (List.map den (List.filterMap (fun nd => gLookup (toIndexPartial nd.keys A a) nd.rules) (List.filter (fun nd => !p nd) G)) ++ R)
+        simpa using e2
+
+/-- the joint value enumerated for `a`'s neighbour index, with `v ↦ k`, agrees with `a[v := k]` on every adjacent node -/
+theorem jv_agreeG (A a : List Nat) (v k : Nat) (G : List (GNode MFactor)) (ha : Valid A a) (hv : v < A.length)
+    (hk : GKeysG A.length G) :
+    ∀ nd ∈ G.filter (fun nd => nd.keys.contains v), ∀ u ∈ nd.keys,
+      (listOf A.length (jvAsg (nbrs A.length v (G.map (·.keys)))
+          (toFactors (sel (nbrs A.length v (G.map (·.keys))) A) (toIndexPartial (nbrs A.length v (G.map (·.keys))) A a)) v k)).getD u 0
+        = (setAt a v k).getD u 0 := by
+  obtain ⟨nb, hnb⟩ : ∃ nb, nb = nbrs A.length v (G.map (·.keys)) := ⟨_, rfl⟩
+  rw [← hnb]
+  have hnbn : ∀ u ∈ nb, u < A.length := by
+    intro u hu; rw [hnb] at hu; exact ((mem_nbrs _ _ _ _).mp hu).1
+  have hjv : toFactors (sel nb A) (toIndexPartial nb A a) = sel nb a :=
+    (toFactors_toIndexLoop _ _ (valid_sel A a ha nb hnbn)).1
+  rw [hjv]
+  intro nd hnd u hu
+  obtain ⟨hndg, hndv⟩ := List.mem_filter.mp hnd
+  have hun : u < A.length := hk nd hndg u hu
+  have hl := asgOf_listOf A.length (jvAsg nb (sel nb a) v k) u hun
+  simp only [asgOf] at hl
+  rw [hl, getD_setAt a v k u (by rw [valid_len A a ha]; exact hv)]
+  by_cases e : u = v
+  · simp [jvAsg, e]
+  · have hunb : u ∈ nb := by
+      rw [hnb, mem_nbrs]
+      exact ⟨hun, e, nd.keys, List.mem_map.mpr ⟨nd, hndg, rfl⟩, List.contains_iff_mem.mp hndv, hu⟩
+    simp only [jvAsg, e, if_false, find_zip_sel a u nb hunb]
+
+theorem setAt_rest_agreeG (a : List Nat) (v k : Nat) (G : List (GNode MFactor)) (hv : v < a.length) :
+    ∀ nd ∈ G.filter (fun nd => !nd.keys.contains v), ∀ u ∈ nd.keys, (setAt a v k).getD u 0 = a.getD u 0 := by
+  intro nd hnd u hu
+  have hnv := (List.mem_filter.mp hnd).2
+  have : u ≠ v := by
+    intro e; subst e
+    simp at hnv
+    exact hnv hu
+  rw [getD_setAt a v k u hv]; simp [this]
+
+theorem good_filter (n : Nat) (G : List (GNode MFactor)) (p : GNode MFactor → Bool) (h : GoodG n G) : GoodG n (G.filter p) :=
+  fun nd hnd => h nd (List.mem_filter.mp hnd).1
+
+theorem full_filter (A : List Nat) (G : List (GNode MFactor)) (p : GNode MFactor → Bool) (h : FullG A G) : FullG A (G.filter p) :=
+  fun nd hnd => h nd (List.mem_filter.mp hnd).1
+
+/-- **`move_table_step`** — one `removeFactor(v)` of MultiObjectiveVariableElimination on the table-level state (sorted rule
+    vectors, `lower_bound` lookups, `crossSumF`, `mergeFactors`, tags) acts on the value vectors exactly like the semantic
+    elimination step (`mem_eliminateS`): the sums reachable from `a` afterwards are those reachable from `a[v:=k]` before,
+    over all actions `k` of `v` — PROVIDED the tables are fully specified (`FullG`), which is what rules out an agent action
+    matched by no rule (the open finding). -/
+theorem move_table_step (n : Nat) (A a : List Nat) (v : Nat) (G : List (GNode MFactor)) (Fs : List MFactor)
+    (ha : Valid A a) (hv : v < A.length) (hpos : 0 < A.getD v 0)
+    (hG : GoodG n G) (hk : GKeysG A.length G) (hfull : FullG A G) (w : Vec) :
+    w ∈ sums (Mean A a (pRemoveVar A A.length v (G, Fs)))
+      ↔ ∃ k, k < A.getD v 0 ∧ w ∈ sums (Mean A (setAt a v k) (G, Fs)) := by
+  obtain ⟨nb, hnb⟩ : ∃ nb, nb = nbrs A.length v (G.map (·.keys)) := ⟨_, rfl⟩
+  obtain ⟨factors, hfac⟩ : ∃ f, f = G.filter (fun nd => nd.keys.contains v) := ⟨_, rfl⟩
+  have hnv : nb.contains v = false := by rw [hnb]; exact nbrs_not_self _ _ _
+  have hnbn : ∀ u ∈ nb, u < A.length := by
+    intro u hu; rw [hnb] at hu; exact ((mem_nbrs _ _ _ _).mp hu).1
+  have hal : v < a.length := by rw [valid_len A a ha]; exact hv
+  have hfacG : GoodG n factors := by rw [hfac]; exact good_filter n G _ hG
+  have hfacF : FullG A factors := by rw [hfac]; exact full_filter A G _ hfull
+  -- the right-hand side, regrouped
+  have hR : ∀ k, w ∈ sums (Mean A (setAt a v k) (G, Fs)) ↔
+      w ∈ sums ((SelG A (setAt a v k) factors).map den ++
+                ((SelG A a (G.filter (fun nd => !nd.keys.contains v))).map den ++ Fs.map den)) := by
+    intro k
+    simp only [Mean]
+    rw [sums_SelG_split A (setAt a v k) (fun nd => nd.keys.contains v) G, ← hfac,
+        SelG_congr A (setAt a v k) a _ (setAt_rest_agreeG a v k G hal)]
+  -- selected adjacent factors for action k
+  have hsel : ∀ k, SelG A (listOf A.length (jvAsg nb (toFactors (sel nb A) (toIndexPartial nb A a)) v k)) factors
+      = SelG A (setAt a v k) factors := by
+    intro k
+    apply SelG_congr
+    have := jv_agreeG A a v k G ha hv hk
+    rw [← hnb, ← hfac] at this
+    exact this
+  by_cases hempty : factors = []
+  · -- no rule mentions `v`: nothing happens, and `a[v:=k]` selects the same factors as `a`
+    have hnil : nb = [] := by
+      rw [hnb]
+      apply List.eq_nil_iff_forall_not_mem.mpr
+      intro u hu
+      obtain ⟨_, _, s, hs, hvs, _⟩ := (mem_nbrs _ _ _ _).mp hu
+      obtain ⟨nd, hnd, rfl⟩ := List.mem_map.mp hs
+      have : nd ∈ factors := by rw [hfac]; exact List.mem_filter.mpr ⟨hnd, List.contains_iff_mem.mpr hvs⟩
+      rw [hempty] at this; simp at this
+    have hNE : ∀ j, NE A A.length nb v factors j = [] := by
+      intro j
+      simp [NE, newEntries, hempty, SelG, crossSel]
+    have hres : pRemoveVar A A.length v (G, Fs) = (G.filter (fun nd => !nd.keys.contains v), Fs) := by
+      simp only [pRemoveVar, ← hnb, ← hfac, hnil, List.isEmpty_nil, Bool.true_or, if_true]
+      have hcnt : spacePartial ([] : List Nat) A = 1 := by simp [spacePartial, sel, space]
+      rw [hcnt, pLoop_succ]
+      have h0 : (NE A A.length [] v factors 0).isEmpty = true := by
+        have := hNE 0; rw [hnil] at this; rw [this]; rfl
+      simp only [h0, if_true, pLoop]
+    rw [hres]
+    have hL : w ∈ sums (Mean A a (G.filter (fun nd => !nd.keys.contains v), Fs)) ↔
+        w ∈ sums ((SelG A a (G.filter (fun nd => !nd.keys.contains v))).map den ++ Fs.map den) := Iff.rfl
+    rw [hL]
+    constructor
+    · intro h
+      refine ⟨0, hpos, ?_⟩
+      rw [hR 0, hempty]; simpa [SelG] using h
+    · rintro ⟨k, _, h⟩
+      rw [hR k, hempty] at h; simpa [SelG] using h
+  · -- at least one adjacent node: every action of `v` selects one (non-empty, uniform) factor per adjacent node
+    have hSk : ∀ k, k < A.getD v 0 → ∃ f fs, SelG A (setAt a v k) factors = f :: fs ∧ GoodF n f ∧ ∀ g ∈ fs, GoodF n g := by
+      intro k hk'
+      have hvalid := valid_setAt A a v k ha hk' hv
+      have hlen := SelG_length_full A _ hvalid factors hfacF
+      have hgood := good_SelG n A (setAt a v k) factors hfacG
+      cases hs : SelG A (setAt a v k) factors with
+      | nil => rw [hs] at hlen; simp at hlen; exact absurd hlen.symm (by simpa using hempty)
+      | cons f fs => rw [hs] at hgood; exact ⟨f, fs, rfl, hgood f (List.mem_cons_self ..), fun g hg => hgood g (List.mem_cons_of_mem _ hg)⟩
+    have hkey : ∀ k, k < A.getD v 0 → ∀ (R : List (List Vec)) (u : Vec),
+        u ∈ sums (den (crossSel (SelG A (setAt a v k) factors)) :: R) ↔ u ∈ sums ((SelG A (setAt a v k) factors).map den ++ R) := by
+      intro k hk' R u
+      obtain ⟨f, fs, hs, hf, hfs⟩ := hSk k hk'
+      rw [hs]; exact (crossSel_spec n f fs hf hfs).2 R u
+    have hNEden : den (NE A A.length nb v factors (toIndexPartial nb A a))
+        = (List.range' 0 (A.getD v 0)).flatMap (fun k => den (crossSel (SelG A (setAt a v k) factors))) := by
+      simp only [NE, den_newEntries, hsel]
+    have hNEne : (NE A A.length nb v factors (toIndexPartial nb A a)).isEmpty = false := by
+      have hd : den (NE A A.length nb v factors (toIndexPartial nb A a)) ≠ [] := by
+        rw [hNEden]
+        obtain ⟨f, fs, hs, hf, hfs⟩ := hSk 0 hpos
+        have hc := (crossSel_spec n f fs hf hfs).1.1
+        intro hnil
+        have hmem : ∀ x ∈ den (crossSel (SelG A (setAt a v 0) factors)), False := by
+          intro x hx
+          have : x ∈ (List.range' 0 (A.getD v 0)).flatMap (fun k => den (crossSel (SelG A (setAt a v k) factors))) :=
+            List.mem_flatMap.mpr ⟨0, by simp [List.mem_range'_1]; exact hpos, hx⟩
+          rw [hnil] at this; simp at this
+        rw [hs] at hmem
+        cases hcs : crossSel (f :: fs) with
+        | nil => exact hc hcs
+        | cons e es => exact hmem (toV e.vals) (by simp [den, hcs])
+      cases hN : NE A A.length nb v factors (toIndexPartial nb A a) with
+      | nil => rw [hN] at hd; simp [den] at hd
+      | cons _ _ => rfl
+    -- the left-hand side: in both cases the new factor joins the factors not adjacent to `v`
+    have hL : w ∈ sums (Mean A a (pRemoveVar A A.length v (G, Fs))) ↔
+        w ∈ sums ([den (NE A A.length nb v factors (toIndexPartial nb A a))] ++
+                  ((SelG A a (G.filter (fun nd => !nd.keys.contains v))).map den ++ Fs.map den)) := by
+      simp only [pRemoveVar, Mean, ← hnb, ← hfac]
+      by_cases hne : nb.isEmpty = true
+      · have hnil : nb = [] := List.isEmpty_iff.mp hne
+        have hcnt : spacePartial nb A = 1 := by rw [hnil]; simp [spacePartial, sel, space]
+        have hj : toIndexPartial nb A a = 0 := by rw [hnil]; simp [toIndexPartial, sel, toIndexLoop]
+        rw [hj] at hNEne ⊢
+        simp only [hne, Bool.true_or, if_true, hcnt]
+        rw [pLoop_succ]
+        simp only [hNEne, Bool.false_eq_true, if_false, hne, if_true, pLoop, List.map_append, List.map_cons, List.map_nil]
+        rw [mem_sums_swap w [den (NE A A.length nb v factors 0)]]
+        apply mem_sums_congr_right
+        intro u
+        exact mem_sums_comm u _ _
+      · have hne' : nb.isEmpty = false := by simpa using hne
+        obtain ⟨g, hg⟩ : ∃ g, g = (if nb.isEmpty || G.any (fun nd => nd.keys == nb) then G else G ++ [⟨nb, []⟩]) := ⟨_, rfl⟩
+        rw [← hg]
+        have hgsel : SelG A a (g.filter (fun nd => !nd.keys.contains v)) = SelG A a (G.filter (fun nd => !nd.keys.contains v)) := by
+          rw [hg]; split
+          · rfl
+          · rw [List.filter_append]
+            have hvn : v ∉ nb := by simpa using hnv
+            simp [SelG, List.filterMap_append, List.filter, hvn, gLookup]
+        have hgood : GoodG n (g.filter (fun nd => !nd.keys.contains v)) := by
+          apply good_filter
+          rw [hg]; split
+          · exact hG
+          · intro nd hnd r hr
+            rcases List.mem_append.mp hnd with h | h
+            · exact hG nd h r hr
+            · simp at h; subst h; simp at hr
+        obtain ⟨f1, f2⟩ := pLoop_filterNot A A.length nb v factors hnv (spacePartial nb A) 0 g Fs
+        obtain ⟨s1, _, s3⟩ := pLoop_sums n A a A.length nb v factors hfacG hne' (spacePartial nb A) 0
+          (g.filter (fun nd => !nd.keys.contains v)) Fs hgood
+        rw [f1, f2, s1, s3 (Fs.map den) w, hgsel]
+        have hlt := toIndexPartial_lt A a nb ha hnbn
+        have hc : 0 ≤ toIndexPartial nb A a ∧ toIndexPartial nb A a < 0 + spacePartial nb A ∧
+            (NE A A.length nb v factors (toIndexPartial nb A a)).isEmpty = false := ⟨Nat.zero_le _, by omega, hNEne⟩
+        rw [if_pos hc]
+    rw [hL]
+    simp only [List.singleton_append]
+    rw [hNEden, mem_sums_flatMap]
+    constructor
+    · rintro ⟨k, hk', h⟩
+      have hklt : k < A.getD v 0 := by
+        have := List.mem_range'_1.mp hk'; omega
+      exact ⟨k, hklt, (hR k).mpr ((hkey k hklt _ w).mp h)⟩
+    · rintro ⟨k, hklt, h⟩
+      exact ⟨k, List.mem_range'_1.mpr ⟨Nat.zero_le _, by omega⟩, (hkey k hklt _ w).mpr ((hR k).mp h)⟩
+
 end AITB.VE
